@@ -20,7 +20,17 @@ from ..values import AIter, ExtObj, PyRaise
 from . import c04, pipejob
 
 
+def _raises(res: dict) -> set:
+    return {p.get("error") or p["ended"] for p in res["paths"] if "error" in p or p["ended"].startswith("raised")}
+
+
 def run(prog, job: dict) -> dict:
+    from .. import tunables
+
+    return tunables.scaled_or_plain(_run, prog, job, _raises)
+
+
+def _run(prog, job: dict) -> dict:
     physical, j, cut = job["physical"], job["complete"], job["cut"]
     integ, parser = job["integ"], job["parser"]
 
